@@ -49,6 +49,7 @@ import (
 
 	"github.com/conduitio/conduit/pkg/foundation/cerrors"
 	"github.com/conduitio/conduit/pkg/foundation/cerrors/conduiterr"
+	"github.com/conduitio/conduit/pkg/foundation/verifhook"
 	"github.com/conduitio/conduit/pkg/lifecycle"
 	"github.com/conduitio/conduit/pkg/pipeline"
 	"github.com/conduitio/conduit/pkg/provisioning/config"
@@ -392,6 +393,7 @@ func (s *Service) ApplyPlan(ctx context.Context, desired config.Pipeline, hash s
 // crash-safety — see docs/design-documents/20260708-live-server-deploy-apply.md,
 // "Review outcome & required rework", blocker 2 (landed as #2595).
 func (s *Service) transactionalImport(ctx context.Context, desired config.Pipeline) error {
+	verifhook.At("provisioning.import-begin")
 	txn, importCtx, err := s.db.NewTransaction(ctx, true)
 	if err != nil {
 		return cerrors.Errorf("could not create db transaction: %w", err)
@@ -703,6 +705,7 @@ func (s *Service) rollbackInPlace(ctx context.Context, pipelineID string, oldCon
 // nothing running to disrupt, matching Plan/ApplyPlan's existing tolerance
 // of a not-found pipeline elsewhere in this file.
 func (s *Service) isRunning(ctx context.Context, id string) (bool, error) {
+	defer verifhook.At("provisioning.running-checked")
 	current, err := s.pipelineService.Get(ctx, id)
 	if err != nil {
 		if cerrors.Is(err, pipeline.ErrInstanceNotFound) {
